@@ -1,5 +1,10 @@
 package jmespath
 
+import (
+	"math"
+	"strings"
+)
+
 // C15: evaluation is deterministic apart from object member order.
 // Self-composition: the same expression on the same document twice; every
 // iteration over a map inside the library forks over all orders independently
@@ -57,4 +62,53 @@ func H_C15_unordered() {
 	expr := c15Unordered[vrtChoose("expr", len(c15Unordered))]
 	vrtNote("template:" + expr)
 	c15Twice(expr, c15Doc(), true)
+}
+
+// H_C15_floats: documents built by the caller with binary floating point
+// members (values whose float sums depend on the order of addition, NaN and
+// infinite members that encoding/json refuses), evaluated twice with
+// independent member orders: scalar results and renderings are equal.
+var c15FloatExprs = []string{
+	"sum(values(@))", "sum(*)", "avg(values(@))", "max(values(@))", "min(*)", "sort(values(@))", "sort(*)[0]", "length(keys(@))",
+	"sum(*) == sum(*)", "to_string(@)", "to_string(values(@) | sort(@))", "to_string(sum(*))", "values(@) | sum(@) | to_string(@)", "sum([p, q, r])", "to_string([p, q])",
+	"to_string({a: p, b: q, c: r})", "to_string(q)", "type(p)", "abs(sum(*))", "sum(*) > `0`", "sum(values(@)[?@ > `0`])", "ceil(avg(*))",
+}
+
+func c15FloatDoc(k int) map[string]any {
+	switch k {
+	case 0:
+		return map[string]any{"p": 1e16, "q": 1.0, "r": -1e16}
+	case 1:
+		return map[string]any{"p": 0.1, "q": 0.2, "r": 0.3}
+	case 2:
+		return map[string]any{"p": math.NaN(), "q": 1.0, "r": 2.5}
+	case 3:
+		return map[string]any{"p": math.Inf(1), "q": map[string]any{"p": math.NaN(), "q": 2.0, "r": 3.0}, "r": 1.0}
+	default:
+		return map[string]any{"p": float32(16777216), "q": float32(1), "r": float32(-16777216)}
+	}
+}
+
+func H_C15_floats() {
+	vrtSpec(2, 3, 1, "p,q,r", smASCII, nfInt, sfOrderForks)
+	expr := c15FloatExprs[vrtChoose("expr", len(c15FloatExprs))]
+	vrtNote("template:" + expr)
+	dk := vrtChoose("doc", 5)
+	doc := c15FloatDoc(dk)
+	if (dk == 2 || dk == 3) && (strings.Contains(expr, "sort") || strings.Contains(expr, "max") || strings.Contains(expr, "min")) {
+		// NaN is unordered: what the ordering functions do with it is outside the property
+		return
+	}
+	r1, err1 := Search(expr, doc)
+	r2, err2 := Search(expr, doc)
+	vrtAssert((err1 == nil) == (err2 == nil), "same expression and document: one evaluation fails, the other does not")
+	if err1 != nil || err2 != nil {
+		return
+	}
+	if s1, ok := r1.(string); ok {
+		s2, _ := r2.(string)
+		vrtAssert(s1 == s2, "two renderings of the same document differ")
+		return
+	}
+	vrtAssert(refEqual(r1, r2), "results of two evaluations differ")
 }
